@@ -81,30 +81,69 @@ Lemma ext_refl D : ext D D.
 Proof. intros y t H; exact H. Qed.
 Lemma ext_trans A B C : ext A B -> ext B C -> ext A C.
 Proof. intros H1 H2 y t H. auto. Qed.
-Lemma ext_snoc D x t : ext D (D ++ [(x, t)]).
+Lemma ext_app D X : ext D (D ++ X).
 Proof. intros y u H. rewrite tlookup_app, H. reflexivity. Qed.
+Lemma ext_snoc D x t : ext D (D ++ [(x, t)]).
+Proof. apply ext_app. Qed.
+
+Lemma map_fst_combine {A B} (a : list A) (b : list B) : length a = length b -> map fst (combine a b) = a.
+Proof.
+  revert b. induction a as [|x a IH]; intros [|y b] H; cbn in *; try discriminate; [reflexivity|].
+  f_equal. apply IH. congruence.
+Qed.
+
+Lemma nodupb_NoDup l : nodupb l = true -> NoDup l.
+Proof.
+  induction l as [|x r IH]; cbn; intro H; [constructor|].
+  apply andb_true_iff in H as [H1 H2]. apply negb_true_iff in H1. constructor; [|auto].
+  intro HI. apply tmem_In in HI. congruence.
+Qed.
+
+Lemma NoDup_app' {A} (a b : list A) : NoDup a -> NoDup b -> (forall x, In x a -> ~ In x b) -> NoDup (a ++ b).
+Proof.
+  induction 1 as [|x a Hx Ha IH]; intros Hb Hd; cbn; [exact Hb|].
+  constructor.
+  - intro HI. apply in_app_or in HI as [HI|HI]; [contradiction|]. apply (Hd x); [left; reflexivity|exact HI].
+  - apply IH; [exact Hb|]. intros y Hy. apply Hd. right. exact Hy.
+Qed.
+
+Lemma tuple_decl_ok_inv D L xs es : tuple_decl_ok D L xs es = true ->
+  length xs = length es /\ forallb (fv_ok D L) es = true /\
+  (forall x, In x xs -> tmem x (map fst D) = false /\ tmem x L = false) /\ nodupb xs = true.
+Proof.
+  unfold tuple_decl_ok. intro H.
+  apply andb_true_iff in H as [H H4]. apply andb_true_iff in H as [H H3]. apply andb_true_iff in H as [H1 H2].
+  apply Nat.eqb_eq in H1. split; [exact H1|]. split; [exact H2|]. split; [|exact H4].
+  intros x Hx. rewrite forallb_forall in H3. apply H3 in Hx. apply andb_true_iff in Hx as [A B].
+  apply negb_true_iff in A, B. auto.
+Qed.
 
 Lemma ty_eqb_eq a b : ty_eqb a b = true -> a = b.
 Proof. destruct a, b; cbn; intro H; try discriminate; reflexivity. Qed.
 
 Lemma g_step_cases f top D L p D1 :
   g_step f top D L p = Some D1 ->
-  D1 = D \/ (exists x e, p = PAssign x e /\ top = true /\ tlookup x D = None /\ D1 = D ++ [(x, a_ty e)]).
+  D1 = D \/ (exists x e, p = PAssign x e /\ top = true /\ tlookup x D = None /\ D1 = D ++ [(x, a_ty e)])
+  \/ (exists xs es, p = PTuple xs es /\ top = true /\ tuple_decl_ok D L xs es = true /\ D1 = D ++ combine xs (map a_ty es)).
 Proof.
   unfold g_step. destruct p;
     repeat match goal with
     | |- context [match tlookup ?x ?DD with _ => _ end] => destruct (tlookup x DD) eqn:?
     | |- context [if ?c then _ else _] => destruct c eqn:?
     end; intro H; inversion H; subst; auto.
-  right. eauto 10.
+  - right. left. eauto 10.
+  - right. right. apply andb_true_iff in Heqb as [-> Hk]. eauto 10.
 Qed.
 
 Lemma g_step_nested f D L p D1 : g_step f false D L p = Some D1 -> D1 = D.
-Proof. intro H. apply g_step_cases in H as [H|(x & e & _ & H & _)]; [exact H|discriminate]. Qed.
+Proof.
+  intro H. apply g_step_cases in H as [H|[(x & e & _ & H & _)|(xs & es & _ & H & _)]]; [exact H|discriminate|discriminate].
+Qed.
 
 Lemma g_step_ext f top D L p D1 : g_step f top D L p = Some D1 -> ext D D1.
 Proof.
-  intro H. apply g_step_cases in H as [->|(x & e & _ & _ & _ & ->)]; [apply ext_refl|apply ext_snoc].
+  intro H. apply g_step_cases in H as [->|[(x & e & _ & _ & _ & ->)|(xs & es & _ & _ & _ & ->)]];
+    [apply ext_refl|apply ext_snoc|apply ext_app].
 Qed.
 
 Lemma g_block_nested : forall f D L ps D', g_block f false D L ps = Some D' -> D' = D.
@@ -154,7 +193,11 @@ Proof.
     destruct (negb (fv_ok D L e) || tmem x0 L); [discriminate|].
     destruct (tlookup x0 D) as [t0|] eqn:El; [|discriminate].
     apply (ext_dom D); [exact HE|]. eapply tlookup_dom_true; eauto.
-  - discriminate.
+  - (* tuple declaration *)
+    destruct (top && tuple_decl_ok D L xs es) eqn:Hk; [|discriminate]. inversion HS; subst D1.
+    apply andb_true_iff in Hk as [_ Hk]. apply tuple_decl_ok_inv in Hk as (Hlen & _ & _ & _).
+    rewrite map_app, tmem_app, map_fst_combine by (rewrite map_length; exact Hlen).
+    apply tmem_In in Hx. rewrite Hx. apply orb_true_r.
   - (* if *)
     destruct (fv_ok D L c && _ && _ && _) eqn:Hc; [|discriminate]. inversion HS; subst D1.
     apply andb_true_iff in Hc as [Hc H3]. apply andb_true_iff in Hc as [Hc H2]. apply andb_true_iff in Hc as [Hc H1].
@@ -189,26 +232,47 @@ Lemma wr_dom_step' f top D L p D1 :
 Proof. apply wr_dom_step. apply wr_dom_nested. Qed.
 
 (* ---- the simple translation ---- *)
+Lemma tup_globals_names xs es g : In g (tup_globals xs es) -> In (g_name g) xs.
+Proof.
+  revert es. induction xs as [|x xr IH]; intros [|e er] H; cbn in H; try contradiction.
+  destruct H as [<-|H]; [left; reflexivity|right; eapply IH; eauto].
+Qed.
+
+Lemma tup_globals_map xs es : length xs = length es -> map g_name (tup_globals xs es) = xs.
+Proof.
+  revert es. induction xs as [|x xr IH]; intros [|e er] H; cbn in *; try discriminate; [reflexivity|].
+  f_equal. apply IH. congruence.
+Qed.
+
 Lemma trt_fresh : forall ps D g, In g (snd (trt D ps)) -> tmem (g_name g) D = false.
 Proof.
   induction ps as [|p r IH]; intros D g Hg; [destruct Hg|].
   assert (K : In g (snd (trt D r)) -> tmem (g_name g) D = false) by apply IH.
-  assert (K2 : forall x, In g (snd (trt (D ++ [x]) r)) -> tmem (g_name g) D = false).
-  { intros x H. apply IH in H. rewrite tmem_app in H. apply orb_false_iff in H as [H _]. exact H. }
+  assert (K2 : forall X, In g (snd (trt (D ++ X) r)) -> tmem (g_name g) D = false).
+  { intros X H. apply IH in H. rewrite tmem_app in H. apply orb_false_iff in H as [H _]. exact H. }
   destruct p; cbn [trt snd] in Hg; try (apply K; exact Hg).
-  destruct (tmem x D) eqn:Ex; [apply K; exact Hg|].
-  destruct (closed_const e); cbn [snd] in Hg; destruct Hg as [<-|Hg]; cbn [g_name]; eauto.
+  - destruct (tmem x D) eqn:Ex; [apply K; exact Hg|].
+    destruct (closed_const e); cbn [snd] in Hg; destruct Hg as [<-|Hg]; cbn [g_name]; eauto.
+  - match type of Hg with context [if ?c then _ else _] => destruct c eqn:Hc end; cbn [snd] in Hg; [|apply K; exact Hg].
+    apply andb_true_iff in Hc as [Hc _]. apply andb_true_iff in Hc as [_ Hc].
+    apply in_app_or in Hg as [Hg|Hg]; [|eapply K2; eauto].
+    apply tup_globals_names in Hg. rewrite forallb_forall in Hc. apply Hc in Hg. apply negb_true_iff in Hg. exact Hg.
 Qed.
 
 Lemma trt_nodup : forall ps D, NoDup (map g_name (snd (trt D ps))).
 Proof.
   induction ps as [|p r IH]; intro D; [constructor|].
   destruct p; cbn [trt snd]; try apply IH.
-  destruct (tmem x D) eqn:Ex; [apply IH|].
-  assert (N : ~ In x (map g_name (snd (trt (D ++ [x]) r)))).
-  { intro HI. apply in_map_iff in HI as (g & <- & Hg). apply trt_fresh in Hg.
-    rewrite tmem_app in Hg. apply orb_false_iff in Hg as [_ Hg]. cbn in Hg. rewrite text_eqb_refl in Hg. discriminate. }
-  destruct (closed_const e); cbn [snd map g_name]; constructor; auto.
+  - destruct (tmem x D) eqn:Ex; [apply IH|].
+    assert (N : ~ In x (map g_name (snd (trt (D ++ [x]) r)))).
+    { intro HI. apply in_map_iff in HI as (g & <- & Hg). apply trt_fresh in Hg.
+      rewrite tmem_app in Hg. apply orb_false_iff in Hg as [_ Hg]. cbn in Hg. rewrite text_eqb_refl in Hg. discriminate. }
+    destruct (closed_const e); cbn [snd map g_name]; constructor; auto.
+  - match goal with |- context [if ?c then _ else _] => destruct c eqn:Hc end; cbn [snd]; [|apply IH].
+    apply andb_true_iff in Hc as [Hc H3]. apply andb_true_iff in Hc as [H1 _]. apply Nat.eqb_eq in H1.
+    rewrite map_app, (tup_globals_map _ _ H1). apply NoDup_app'; [apply nodupb_NoDup; exact H3|apply IH|].
+    intros y Hy HI. apply in_map_iff in HI as (g & <- & Hg). apply trt_fresh in Hg.
+    rewrite tmem_app in Hg. apply orb_false_iff in Hg as [_ Hg]. apply tmem_In in Hy. congruence.
 Qed.
 
 Lemma trm_fresh top lm D ps g : In g (snd (trm top lm D ps)) -> tmem (g_name g) (map fst D) = false.
@@ -248,8 +312,21 @@ Proof.
   rewrite map_app. reflexivity.
 Qed.
 
+Lemma trm_cons_tuple D L xs es rest : tuple_decl_ok D L xs es = true ->
+  trm true false D (PTuple xs es :: rest) =
+  (tup_nodes xs es ++ fst (trm true false (D ++ combine xs (map a_ty es)) rest),
+   tup_globals xs es ++ snd (trm true false (D ++ combine xs (map a_ty es)) rest)).
+Proof.
+  intro H. apply tuple_decl_ok_inv in H as (Hlen & _ & Hnew & Hnd).
+  unfold trm. cbn [trt]. rewrite map_app, map_fst_combine by (rewrite map_length; exact Hlen).
+  assert (E : Nat.eqb (length xs) (length es) && forallb (fun x => negb (tmem x (map fst D))) xs && nodupb xs = true).
+  { apply Nat.eqb_eq in Hlen. rewrite Hlen, Hnd. cbn. rewrite andb_true_r. apply forallb_forall.
+    intros x Hx. apply negb_true_iff. apply (Hnew x Hx). }
+  rewrite E. reflexivity.
+Qed.
+
 Lemma trm_cons_other top lm D p rest :
-  match p with PAssign _ _ => False | _ => True end ->
+  match p with PAssign _ _ | PTuple _ _ => False | _ => True end ->
   trm top lm D (p :: rest) = (tr1 p ++ fst (trm top lm D rest), snd (trm top lm D rest)).
 Proof. intro H. destruct top, lm; destruct p; try reflexivity; destruct H. Qed.
 
@@ -391,4 +468,20 @@ Proof.
   intro H. unfold lastn. rewrite app_length, H.
   replace (length l1 + n - n)%nat with (length l1) by lia.
   induction l1 as [|x l1 IH]; cbn; [reflexivity|exact IH].
+Qed.
+
+Lemma Rel_frame D L rho (sg sg' : StmtSem.cstore) :
+  Rel D L rho sg ->
+  (forall y, tmem y (map fst D) = true \/ tmem y L = true -> tlookup y sg' = tlookup y sg) ->
+  Rel D L rho sg'.
+Proof.
+  intros [R1 R2] H. split.
+  - intros y t Hl. destruct (R1 _ _ Hl) as (u & P1 & P2 & P3). exists u.
+    rewrite H by (left; eapply tlookup_dom_true; eauto). auto.
+  - intros y Hm. destruct (R2 _ Hm) as (i & P1 & P2). exists i. rewrite H by (right; exact Hm). auto.
+Qed.
+
+Lemma tmem_false_lookup {A} x (l : list (text * A)) : tmem x (map fst l) = false -> tlookup x l = None.
+Proof.
+  intro H. destruct (tlookup x l) eqn:E; [|reflexivity]. apply tlookup_dom_true in E. exact (match bool_contra _ E H with end).
 Qed.
